@@ -54,9 +54,11 @@ def run(repo, rep):
         n += 1
         seen_writes[cname] += 1
         who = s.fn.qualname if (s.fn and s.fn.module is m) else (s.fn.key if s.fn else '<module>')
+        whos = {who}
         if s.fn and s.fn.module is m:
-            who = SS.owner_qualname(repo, s.fn, WRITERS[cname])
-        rep.check(who in WRITERS[cname], 'C15.a', '%s:writes:%s:%s' % (who, s.obj.name, s.detail), s.where,
+            whos = SS.owners_of(repo, s.fn, WRITERS[cname])
+            who = '/'.join(sorted(whos)) if whos <= set(WRITERS[cname]) else sorted(whos - set(WRITERS[cname]))[0]
+        rep.check(whos <= set(WRITERS[cname]), 'C15.a', '%s:writes:%s:%s' % (who, s.obj.name, s.detail), s.where,
                   'store written only by its registered writers',
                   '%s %s %s; only %s may write that store' % (who, s.detail, s.obj.name, sorted(WRITERS[cname])),
                   nontrivial=True)
